@@ -45,6 +45,7 @@ type Ev struct {
 	MF    []MongoFault  `json:"mf,omitempty"`
 	Post  string        `json:"post,omitempty"` // sync: "" (run background work now) | lag (leave it pending)
 	Par   []int         `json:"par,omitempty"`
+	Join  int           `json:"join,omitempty"` // sync/par: a ProcessClient call at the same moment (1: a fresh client registers; 2: a syncing client's registration is repeated)
 	Rd    int           `json:"rd,omitempty"`   // sync/par: the read-only observer pulls at the same moment
 	Late  []int         `json:"late,omitempty"` // sync/par: actors whose Sync starts 5.05 s into the first slow database command (just after the lock leases of the waiting requests ran out)
 	Dur   int64         `json:"dur,omitempty"`  // advance: milliseconds
